@@ -447,6 +447,15 @@ def main(argv):
             if ob["status"] != "refuted":
                 continue
             k = match_known(known, prop, r, ob)
+            if k and k.get("witness_only") and not a.no_witness:
+                # the finding is identified by the inputs that fail: it is matched only if every input the witness search
+                # replays is one of the listed ones - a different failing input is a different violation
+                if not r.get("witness"):
+                    r["witness"] = run_witness(u, a.repo, bdir)
+                allowed = [x for x in k["witness_only"].split("|") if x]
+                lines = [l for l in r["witness"].get("witness_lines", []) if l.startswith("WITNESS")]
+                if not lines or not all(any(x in l for x in allowed) for l in lines) or any(l.startswith("...") for l in r["witness"].get("witness_lines", [])):
+                    k = None
             if k:
                 known_hits.append((k, ob))
                 continue
